@@ -161,12 +161,17 @@ def build(spec):
     raise ValueError("bad spec %r" % (spec,))
 
 
+MAXDIG = (sys.get_int_max_str_digits() if hasattr(sys, "get_int_max_str_digits") else 0) or 10 ** 9
+
 PLAIN_SCALARS = (int, bool, float, complex, str, bytes, type(None), type(NotImplemented), type(Ellipsis))
 
 
 def plain(v):
     """the statement's 'immutable plain value', written independently of brine.dumpable"""
     tv = type(v)
+    if tv is int:
+        # "integers of any size the interpreter can render as text"
+        return v.bit_length() < 3 * MAXDIG or _renderable(v)
     if tv in PLAIN_SCALARS:
         return True
     if tv is tuple or tv is frozenset:
@@ -177,6 +182,14 @@ def plain(v):
     if tv is slice:
         return plain(v.start) and plain(v.stop) and plain(v.step)
     return False
+
+
+def _renderable(v):
+    try:
+        str(v)
+        return True
+    except ValueError:
+        return False
 
 
 def fbits(x):
@@ -229,7 +242,7 @@ def canon(v):
     if tv is bool:
         return "B:%d" % v
     if tv is int:
-        return "i:%d" % v if abs(v) < 10 ** 50 else "i:big%d:%d" % (v.bit_length(), v % 1000003)
+        return "i:%d" % v if v.bit_length() < 160 else "i:big%d:%d" % (v.bit_length(), v % 1000003)
     if v is None:
         return "N"
     if v is NotImplemented:
@@ -253,8 +266,6 @@ def describe(v, depth=0):
 # --------------------------------------------------------------------------------------------------
 # strategies (specs)
 
-MAXDIG = sys.get_int_max_str_digits() if hasattr(sys, "get_int_max_str_digits") else 4300
-
 _F_SPECIAL = ["0000000000000000", "8000000000000000", "7ff0000000000000", "fff0000000000000",
               "7ff8000000000000", "fff8000000000000", "7ff0000000000001", "7ff8000000000123",
               "fff4000000abcdef", "0000000000000001", "800fffffffffffff", "3ff0000000000000",
@@ -265,6 +276,12 @@ def float_hex():
     return st.one_of(st.sampled_from(_F_SPECIAL),
                      st.integers(0, 2 ** 64 - 1).map(lambda n: "%016x" % n),
                      st.floats(allow_nan=False).map(lambda f: fbits(f).hex()))
+
+
+def huge_ints():
+    """integers around and beyond the interpreter's int->str digit limit (not renderable as text beyond it)"""
+    nd = st.sampled_from([MAXDIG - 1, MAXDIG, MAXDIG + 1, MAXDIG + 2, 2 * MAXDIG, 5000, 20000])
+    return st.tuples(nd, st.integers(0, 9), st.booleans()).map(lambda t: ["pow10", t[0] - 1, t[1], t[2]])
 
 
 def ints():
@@ -417,7 +434,7 @@ def spec_classes(spec, out=None, depth=0):
         if any(ord(ch) > 0xffff for ch in spec[1]):
             out.add("str:astral")
     elif t == "pow10":
-        out.add("int-digits:%d" % (spec[1] + 1))
+        out.add("int-digits:%d" % (spec[1] + 1) if spec[1] + 1 <= MAXDIG else "int-digits:beyond-text-limit")
     elif t == "int":
         n = int(spec[1])
         out.add("int:immediate" if -0x30 <= n < 0xa0 else "int:long")
